@@ -139,7 +139,9 @@ func (p MembershipProof) DigestVerify(digest hashing.Digest, snapshot *Snapshot)
 		}
 	}
 
-	return hyperCorrect
+	// a claim of absence, or of an insertion later than the queried version,
+	// is not bound to the history tree and cannot be accepted
+	return false
 }
 
 // Verify verifies a proof and answer from QueryMembership. Returns true if the
